@@ -540,6 +540,31 @@ Post(s, sl) == [s EXCEPT !.pool = @ \cup {sl}]
 \* a block with coinbase output `cb` (world-wide id, "" if foreign) and txs
 MineBlock(s, cb, txs) == [s EXCEPT !.chain = Append(@, [cb |-> cb, txs |-> txs]), !.pool = @ \ txs]
 
+\* a reorganisation: the last d blocks are replaced by d + 1 new ones mined by
+\* nobody we know; the first new block carries `keep` (transactions of the removed
+\* blocks that the miner includes again - they must still be valid there); the other
+\* removed transactions return to the pool
+Fork(s, d, keep) ==
+  LET H == Height(s)
+      base == [s EXCEPT !.chain = SubSeq(s.chain, 1, H - d)]
+      removed == UNION {s.chain[i].txs : i \in (H - d + 1)..H}
+      first == [cb |-> "", txs |-> keep]
+      rest == [i \in 1..d |-> [cb |-> "", txs |-> {}]] IN
+  [base EXCEPT !.chain = @ \o <<first>> \o rest, !.pool = (s.pool \cup removed) \ keep]
+
+\* a new wallet created from the recovery phrase of wallet `from`
+Restore(s, w, from) ==
+  [s EXCEPT !.w = Put(@, w, [EmptyWallet({"a0"}) EXCEPT !.seed = s.w[from].seed])]
+
+\* divergences injected into the records (C16)
+Diverge(s, w, kind, k) ==
+  IF k \notin DOMAIN s.w[w].outs THEN s
+  ELSE CASE kind = "delete"  -> [s EXCEPT !.w[w].outs = Del(@, {k})]
+         [] kind = "spent"   -> [s EXCEPT !.w[w].outs[k].st = "Spent"]
+         [] kind = "unspent" -> [s EXCEPT !.w[w].outs[k].st = "Unspent"]
+         [] kind = "lock"    -> [s EXCEPT !.w[w].outs[k].st = "Locked"]
+         [] OTHER -> s
+
 \* ======================================================================
 \* RefreshFull — owner::update_wallet_state(update_all = FALSE) on the
 \* active account, as ONE atomic composition (Conc.tla interleaves the
